@@ -414,8 +414,18 @@ def run_case(case):
             else:
                 # The generator's valid profile promises success: compare anyway when scratch
                 # succeeds, because then the incremental build failed where scratch does not.
+                before = len(violations)
                 status, b_s = compare_final(ctx, final_spec, env, f"{case['id']}/{sub}", witness)
-                if status == "compared":
+                if status == "compared" and pending_only_below_reverted_optional():
+                    # Consequence of the listed finding: a step that a reverted optional step
+                    # defined in an earlier run is still attached, became pending, and can never
+                    # be dispatched because its creator is not going to run.
+                    for v in violations[before:]:
+                        v["mechanism"] = OPT_MEMORY_MECH
+                    vio(OPT_MEMORY_MECH,
+                        f"{case['id']}/{sub}: rc={b.returncode}: a step defined by an optional "
+                        f"step that is no longer needed stays pending for ever", witness)
+                elif status == "compared":
                     vio("incremental build fails where a from-scratch build succeeds",
                         f"{case['id']}/{sub}: rc={b.returncode} error={b.error}; "
                         f"reports={[e['args'][:2] for e in b.reports('report')][-12:]}", witness)
@@ -441,3 +451,38 @@ def run_case(case):
 
 def is_recycled_lost_hash():
     return False
+
+
+def pending_only_below_reverted_optional():
+    """In the current directory's graph: every PENDING step that is not optional itself has a
+    PENDING optional step in its creator chain."""
+    text, _ = H.graph_text(attached_only=True)
+    g = H.parse_graph(text)
+
+    def props(head):
+        return dict(g[head]["props"])
+
+    def creator(head):
+        for role, key, _d in g[head]["rels"]:
+            if role == "creator":
+                return key
+        return None
+
+    found = False
+    for head in g:
+        if not head.startswith("step:"):
+            continue
+        pr = props(head)
+        if pr.get("state") != "PENDING" or pr.get("need", "").startswith("OPTIONAL"):
+            continue
+        cur, ok = creator(head), False
+        while cur in g and cur.startswith("step:"):
+            cp = props(cur)
+            if cp.get("state") == "PENDING" and cp.get("need", "").startswith("OPTIONAL"):
+                ok = True
+                break
+            cur = creator(cur)
+        if not ok:
+            return False
+        found = True
+    return found
